@@ -8,6 +8,7 @@ from ..core import (AnalysisError, call_name, const, dotted, is_const, kwarg, lo
 from ..facts import default_of, guards_of, returns_of, enclosing_loops
 from ..rules import canon as C
 from ..rules.label import analyse as label_analyse
+from ..pattern import pmatch, pfind
 from ..rules.memo import local_memo_sites
 from ..rules.unionfind import check_merge
 from ..rules.label import _total_key
@@ -57,14 +58,32 @@ def run(rep):
 
 
 # ------------------------------------------------------------------ O8.1
-def _rebuild(rep, fi, mapping_name="mapping"):
+def _names(fi):
+    """(rebuilt graph variable, numbering variable): `<G2> = type(g)()` and `<mapping> = {old: i + 1 for ...}`"""
+    g2 = [b["x"] for n, b in pfind("$x = type(g)()", fi.node, into_nested=False)]
+    mp = None
+    pm = parent_map(fi.node)
+    for dc, src in C.mapping_sites(fi):
+        par = pm.get(dc)
+        if isinstance(par, (ast.Assign, ast.AnnAssign)):
+            t = par.targets[0] if isinstance(par, ast.Assign) else par.target
+            if isinstance(t, ast.Name):
+                mp = t.id
+    return (g2[0] if len(g2) == 1 else None), mp
+
+
+def _rebuild(rep, fi):
     """G2.add_node(mapping[x], **full_dict) and G2.add_edge(mapping[u], mapping[v], **full_dict)"""
     pm = parent_map(fi.node)
     defs = local_defs(fi.node)
+    G2, mapping_name = _names(fi)
+    rep.ob("O8.1", "R14", fi, G2 is not None, f"{G2} = type(g)()", "the canonical graph is a fresh graph of the class of the input", node=fi.node)
+    if G2 is None or mapping_name is None:
+        return
     for meth, n_ids in (("add_node", 1), ("add_edge", 2)):
-        calls = [c for c in walk_local(fi.node) if isinstance(c, ast.Call) and call_name(c) == meth and norm(c.func.value) == "G2"]
+        calls = [c for c in walk_local(fi.node) if isinstance(c, ast.Call) and call_name(c) == meth and norm(c.func.value) == G2]
         if len(calls) != 1:
-            rep.ob("O8.1", "R14", fi, None if calls else False, f"G2.{meth}", f"the canonical graph is rebuilt with one {meth} per {'node' if n_ids == 1 else 'edge'}", node=fi.node)
+            rep.ob("O8.1", "R14", fi, None if calls else False, f"{G2}.{meth}", f"the canonical graph is rebuilt with one {meth} per {'node' if n_ids == 1 else 'edge'}", node=fi.node)
             continue
         c = calls[0]
         ids_ok = len(c.args) == n_ids and all(isinstance(a, ast.Subscript) and norm(a.value) == mapping_name for a in c.args)
@@ -78,21 +97,33 @@ def _rebuild(rep, fi, mapping_name="mapping"):
             sv = star[0]
             it = origin(defs, lp[0].iter)
             itxt = norm(it).replace(" ", "")
+            tgt_names = [norm(e) for e in (lp[0].target.elts if isinstance(lp[0].target, ast.Tuple) else [lp[0].target])]
             if isinstance(sv, ast.Name):
                 # loop target member of g.nodes(data=True) / g.edges(data=True) (possibly sorted)
-                tgt_names = [norm(e) for e in (lp[0].target.elts if isinstance(lp[0].target, ast.Tuple) else [lp[0].target])]
                 full = sv.id == tgt_names[-1] and (f"g.{'nodes' if n_ids == 1 else 'edges'}(data=True)" in itxt)
                 why = f"**{sv.id} from {itxt[:50]}"
+                # the ids passed through the numbering are the other members of the same loop target
+                full = full and [norm(a.slice) for a in c.args] == tgt_names[:n_ids]
             elif isinstance(sv, ast.Subscript):
-                full = norm(sv.value) == "g.nodes" and norm(sv.slice) == norm(c.args[0].slice)
+                full = norm(sv.value) == "g.nodes" and norm(sv.slice) == norm(c.args[0].slice) and norm(sv.slice) == tgt_names[0]
                 why = f"**{norm(sv)}"
         rep.ob("O8.1", "R14", fi, full, f"{meth}(..., {', '.join('**' + norm(s_) for s_ in star)}{''.join(', ' + n_ + '=' for n_ in named)})",
                f"every {'node' if n_ids == 1 else 'edge'} keeps its complete attribute dict ({why})", node=c)
-        # all nodes/edges: loop unfiltered
         if lp:
             exits = [n for n in walk_local(lp[0]) if isinstance(n, (ast.Continue, ast.Break))]
             gs = guards_of(pm, c, lp[0])
             rep.ob("O8.1", "R14", fi, not exits and not gs, lp[0].iter, f"every {'node' if n_ids == 1 else 'edge'} is copied", node=lp[0])
+
+
+def _order_key(fi):
+    """sort key (Lambda) of the sequence that is numbered"""
+    defs = local_defs(fi.node)
+    ms = C.mapping_sites(fi)
+    if not ms:
+        return None, None
+    order = origin(defs, ms[0][1])
+    key = kwarg(order, "key") if isinstance(order, ast.Call) else None
+    return order, key
 
 
 def _mapping(rep, fi, want_offset=1, resolver=None):
@@ -121,8 +152,6 @@ def relabel_generic(rep, rel):
     fi = rep.f(rel, GC + "_canon_generic")
     _mapping(rep, fi)
     _rebuild(rep, fi)
-    t = [d for d in local_defs(fi.node).get("G2", []) if d.kind == "assign"]
-    rep.ob("O8.1", "R14", fi, bool(t) and norm(t[0].value) == "type(g)()", t[0].stmt if t else "G2", "the canonical graph has the class of the input")
 
 
 def relabel_wl(rep, rel):
@@ -130,23 +159,23 @@ def relabel_wl(rep, rel):
     _mapping(rep, fi)
     _rebuild(rep, fi)
     defs = local_defs(fi.node)
-    order = origin(defs, ast.Name(id="order", ctx=ast.Load()))
-    key = kwarg(order, "key") if isinstance(order, ast.Call) else None
+    order, key = _order_key(fi)
     ok = isinstance(key, ast.Lambda) and isinstance(key.body, ast.Tuple) and norm(key.body.elts[-1]) == key.args.args[0].arg
     rep.ob("O8.2", "R4", fi, ok, key if key is not None else order, "the WL ordering is total: the node id is the final tie-breaker (result independent of insertion order)")
-    # the working copy with the seed label is not the graph whose attributes are copied
-    g2 = [d for d in defs.get("g2", []) if d.kind == "assign"]
-    ok = any(norm(d.value) == "g.copy()" for d in g2)
-    rep.ob("O8.1", "R14", fi, ok, [norm(d.stmt) for d in g2], "the temporary seed label is written to a copy, never to the caller's graph")
+    # the seed label is written through the data dicts of a *copy*
+    seeds = [n for n, b in pfind("$d['_wl_init'] = $$v", fi.node)]
+    okc = False
+    if seeds:
+        from ..rules.nonmut import mutations
+        okc = not mutations(rep.repo, fi, "g", depth=0)
+    rep.ob("O8.1", "R14", fi, okc, seeds[0] if seeds else "_wl_init", "the temporary seed label is written to a copy, never to the caller's graph")
 
 
 def relabel_morgan(rep):
     fi = rep.f(ALG, "canon_morgan")
     _mapping(rep, fi)
     _rebuild(rep, fi)
-    defs = local_defs(fi.node)
-    order = origin(defs, ast.Name(id="order", ctx=ast.Load()))
-    key = kwarg(order, "key") if isinstance(order, ast.Call) else None
+    order, key = _order_key(fi)
     ok = isinstance(key, ast.Lambda) and isinstance(key.body, ast.Tuple) and norm(key.body.elts[-1]) == key.args.args[0].arg
     rep.ob("O8.2", "R4", fi, ok, key if key is not None else order, "the Morgan ordering is total (node id as final tie-breaker)")
 
@@ -178,8 +207,23 @@ def dispatch(rep, rel):
 def serialise(rep, rel):
     fi = rep.f(rel, GC + "_serialise")
     defs = local_defs(fi.node)
-    nodes = origin(defs, ast.Name(id="nodes", ctx=ast.Load()))
-    edges = origin(defs, ast.Name(id="edges", ctx=ast.Load()))
+    # discover the locals from the returned text: f"N[{<node part>}]|E[{<edge part>}]"
+    rets0 = returns_of(fi.node)
+    parts = [v.value for v in rets0[-1].value.values if isinstance(v, ast.FormattedValue)] if rets0 and isinstance(rets0[-1].value, ast.JoinedStr) else []
+    lits = [v.value for v in rets0[-1].value.values if isinstance(v, ast.Constant)] if rets0 and isinstance(rets0[-1].value, ast.JoinedStr) else []
+    if len(parts) != 2 or not all(isinstance(x, ast.Name) for x in parts):
+        rep.ob("O8.3", "COVER", fi, False if (rets0 and len(parts) < 2) else None, rets0[-1] if rets0 else "return",
+               "the text is the node part followed by the edge part (nothing dropped)")
+        return
+    ns_name, es_name = parts[0].id, parts[1].id
+    ns = origin(defs, parts[0])
+    es = origin(defs, parts[1])
+    ngen = [g for g in ast.walk(ns) if isinstance(g, ast.comprehension)]
+    egen = [g for g in ast.walk(es) if isinstance(g, ast.comprehension)]
+    nodes_name = norm(ngen[0].iter) if ngen else "nodes"
+    edges_name = norm(egen[0].iter) if egen else "edges"
+    nodes = origin(defs, ast.Name(id=nodes_name, ctx=ast.Load()))
+    edges = origin(defs, ast.Name(id=edges_name, ctx=ast.Load()))
     # (a) node order is total and covers the printed id
     key = kwarg(nodes, "key") if isinstance(nodes, ast.Call) else None
     ok = None
@@ -211,8 +255,6 @@ def serialise(rep, rel):
     d2 = default_of(init, "node_sort_key")
     rep.ob("O8.2", "R4", init, d is not None and norm(d) == "_default_edge_key" and d2 is not None and norm(d2) == "_default_node_key", "default sort keys", "the default keys are the module's own key functions")
     # (c) printed edge end points are normalised
-    es = origin(defs, ast.Name(id="edge_str", ctx=ast.Load()))
-    ns = origin(defs, ast.Name(id="node_str", ctx=ast.Load()))
     fv = [v for j in ast.walk(es) if isinstance(j, ast.JoinedStr) for v in j.values if isinstance(v, ast.FormattedValue)]
     raw = [v for v in fv if isinstance(v.value, ast.Tuple) and all(isinstance(e, ast.Name) for e in v.value.elts)]
     normed = [v for v in fv if "sorted(" in norm(v.value) or "frozenset(" in norm(v.value)]
@@ -220,16 +262,16 @@ def serialise(rep, rel):
            "an undirected edge is printed with its end points in normalised order (the raw (u, v) orientation depends on insertion order)")
     # coverage
     gen = [g for g in ast.walk(es) if isinstance(g, ast.comprehension)]
-    ok = bool(gen) and norm(gen[0].iter) == "edges" and not gen[0].ifs and any("self._edge_key(" in norm(v.value) for v in fv)
+    ok = bool(gen) and norm(gen[0].iter) == edges_name and not gen[0].ifs and any("self._edge_key(" in norm(v.value) for v in fv)
     rep.ob("O8.3", "COVER", fi, ok, es, "every edge contributes its end points and its key to the text")
     nfv = [v for j in ast.walk(ns) if isinstance(j, ast.JoinedStr) for v in j.values if isinstance(v, ast.FormattedValue)]
     gen = [g for g in ast.walk(ns) if isinstance(g, ast.comprehension)]
     tgt = norm(gen[0].target.elts[0]) if gen and isinstance(gen[0].target, ast.Tuple) else "?"
-    ok = bool(gen) and norm(gen[0].iter) == "nodes" and not gen[0].ifs and any(norm(v.value) == tgt for v in nfv) and any("self._node_key(" in norm(v.value) for v in nfv)
+    ok = bool(gen) and norm(gen[0].iter) == nodes_name and not gen[0].ifs and any(norm(v.value) == tgt for v in nfv) and any("self._node_key(" in norm(v.value) for v in nfv)
     rep.ob("O8.3", "COVER", fi, ok, ns, "every node contributes its id and its key to the text")
     rets = returns_of(fi.node)
     vals = [norm(v.value) for v in rets[-1].value.values if isinstance(v, ast.FormattedValue)] if rets and isinstance(rets[-1].value, ast.JoinedStr) else []
-    rep.ob("O8.3", "COVER", fi, vals == ["node_str", "edge_str"], rets[-1] if rets else "return", "the text is the node part followed by the edge part (nothing dropped)")
+    rep.ob("O8.3", "COVER", fi, vals == [ns_name, es_name] and lits[:2] == ["N[", "]|E["], rets[-1] if rets else "return", "the text is the node part followed by the edge part (nothing dropped)")
     # node key covers the matched attributes
     nk = rep.f(rel, "_default_node_key")
     rets = returns_of(nk.node)
@@ -245,27 +287,32 @@ def serialise(rep, rel):
 def nauty(rep):
     cf = rep.f(NA, N + "canonical_form")
     se = rep.f(NA, N + "_search")
+    best_p = se.params[4]  # _search(self, G, partition, prefix, best, aut_perms, ...)
+    G_se = se.params[1]
 
     def resolver(_lookup):
         sdefs = local_defs(se.node)
-        stores = [n for n in walk_local(se.node) if isinstance(n, ast.Assign) and "best['perm']" in norm(n.targets[0])]
-        if not stores:
-            return "UNKNOWN", "no store into best['perm']"
-        st = stores[0]
-        val = st.value
-        if isinstance(st.targets[0], ast.Tuple) and isinstance(val, ast.Tuple):
-            idx = [norm(t) for t in st.targets[0].elts].index("best['perm']")
-            val = val.elts[idx]
-        return C.classify_order(sdefs, val)
+        for st in walk_local(se.node):
+            if not isinstance(st, ast.Assign):
+                continue
+            t, val = st.targets[0], st.value
+            tg = t.elts if isinstance(t, ast.Tuple) else [t]
+            vs = val.elts if isinstance(t, ast.Tuple) and isinstance(val, ast.Tuple) and len(val.elts) == len(tg) else [val] * len(tg)
+            for tt, vv in zip(tg, vs):
+                if pmatch(f"{best_p}['perm']", tt) is not None:
+                    return C.classify_order(sdefs, vv)
+        return "UNKNOWN", f"no store into {best_p}['perm']"
 
     # numbering: order = list(dict.fromkeys(perm)) ... the raw perm is prefix + flatten
     defs = local_defs(cf.node)
+    Gp = cf.params[1]
     ms = C.mapping_sites(cf)
     rep.need("R14", len(ms), 1, "numbering comprehension in canonical_form")
     dc, src = ms[0]
     rep.ob("O8.1", "R14", cf, C.offset_of(dc) == 1, dc.value, "numbers are position + 1 (onto 1..N)", node=dc)
     o = origin(defs, src)
-    if isinstance(o, ast.Call) and norm(o).replace(" ", "").startswith("list(dict.fromkeys("):
+    m = pmatch("list(dict.fromkeys($$inner))", o)
+    if m is not None:
         inner = o.args[0].args[0]
         cls, why = C.classify_order(defs, inner)
         if cls == "LOOKUP":
@@ -278,66 +325,87 @@ def nauty(rep):
             cls, why = resolver(why)
         ok = True if cls == "BIJECTIVE" else (False if cls == "DUPLICATE" else None)
     rep.ob("O8.1", "R14", cf, ok, f"order = {norm(o)[:60]}", "the numbered sequence lists every node exactly once (bijection onto 1..N)", {"class": cls, "why": why}, node=dc)
+    # the mapping that is applied is the numbering comprehension
+    map_names = [nm for nm, ds in defs.items() for d_ in ds if d_.kind == "assign" and d_.value is dc]
     rl = [c for c in walk_local(cf.node) if isinstance(c, ast.Call) and call_name(c) == "relabel_nodes"]
-    ok = bool(rl) and norm(rl[0].args[0]) == "G" and norm(rl[0].args[1]) == "mapping" and is_const(kwarg(rl[0], "copy") or ast.Constant(True), True)
+    ok = bool(rl) and bool(map_names) and len(rl[0].args) >= 2 and norm(rl[0].args[0]) == Gp and norm(rl[0].args[1]) == map_names[0] \
+        and is_const(kwarg(rl[0], "copy") or ast.Constant(True), True)
     rep.ob("O8.1", "R14", cf, ok, rl[0] if rl else "relabel_nodes", "the canonical graph is a relabelled copy with all node and edge attributes")
     # labels
     sig = rep.f(NA, N + "_node_signature")
-    leaks, unordered, facts = label_analyse(sig, {"v"}, {"partition"})
+    leaks, unordered, facts = label_analyse(sig, {sig.params[2]}, {sig.params[3]})
     if not leaks and not unordered:
         rep.ob("O8.4", "R12", sig, True, "_node_signature(G, v, partition)", "refinement signatures use node ids only as lookup keys and sort every per-neighbour list", facts, node=sig.node)
     for node, msg in leaks + unordered:
         rep.ob("O8.4", "R12", sig, False, node, msg, facts, node=node)
     bl = rep.f(NA, N + "_build_label")
-    leaks, unordered, facts = label_analyse(bl, set(), {"perm"})
+    leaks, unordered, facts = label_analyse(bl, set(), {bl.params[2]})
     if not leaks and not unordered:
         rep.ob("O8.4", "R12", bl, True, "_build_label(G, perm)", "the canonical label depends on attributes at positions, not on node ids", facts, node=bl.node)
     for node, msg in leaks + unordered:
         rep.ob("O8.4", "R12", bl, False, node, msg, facts, node=node)
     ip = rep.f(NA, N + "_initial_partition")
     rets = returns_of(ip.node)
-    ok = bool(rets) and "sorted(buckets.items())" in norm(rets[-1].value)
+    ok = False
+    if rets:
+        # return [sorted(cell) for _, cell in sorted(<buckets>.items())] where <buckets> is keyed by the attribute tuple
+        mm = pmatch("[sorted($c) for $u, $c in sorted($b.items())]", rets[-1].value) or pmatch("[sorted($c) for $c in (v for _, v in sorted($b.items()))]", rets[-1].value)
+        if mm:
+            fills = pfind("$b.setdefault($k, []).append($v)", ip.node, {"b": mm["b"]})
+            ok = bool(fills) and "self.node_attrs" in norm(origin(local_defs(ip.node), ast.Name(id=fills[0][1]["k"], ctx=ast.Load())))
     rep.ob("O8.4", "R12", ip, ok, rets[-1] if rets else "return", "initial cells are ordered by their attribute key (not by insertion order)")
     # label coverage
-    bdefs = local_defs(bl.node)
-    nseg = origin(bdefs, ast.Name(id="node_segment", ctx=ast.Load()))
-    ok = "self.node_attrs" in norm(nseg) and "for v in perm" in norm(nseg)
-    rep.ob("O8.4", "R12", bl, ok, nseg, "the label lists the selected node attributes of every position")
-    ones = [c for c in walk_local(bl.node) if isinstance(c, ast.Call) and norm(c.func) == "edge_bits.append" and "'1:'" in norm(c)]
-    okf = False
-    if ones:
-        names = {x.id for x in ast.walk(ones[0]) if isinstance(x, ast.Name)}
-        fr = [d for nm in names for d in bdefs.get(nm, []) if d.kind == "assign" and "self.edge_attrs" in norm(d.value) and "attrs.get(a" in norm(d.value)]
-        okf = bool(fr) and norm(origin(bdefs, ast.Name(id="attrs", ctx=ast.Load()))) == "G[vi][vj]"
-    rep.ob("O8.4", "R12", bl, okf, ones[0] if ones else "edge_bits.append", "an edge bit carries the selected attributes of exactly that edge")
-    inner = [l for l in walk_local(bl.node) if isinstance(l, ast.For) and isinstance(l.iter, ast.Call) and call_name(l.iter) == "range"]
-    ok = len(inner) == 2 and norm(inner[0].iter) == "range(n)" and norm(inner[1].iter).replace(" ", "") == "range(i+1,n)"
-    rep.ob("O8.4", "R12", bl, ok, [norm(l.iter) for l in inner], "every unordered pair of positions contributes an edge bit")
-    # pruning bound
+    shape_obs = C.label_builder_shape(bl, "node_attrs", "edge_attrs", directed=False)
+    for tag, ok, construct, what, node in shape_obs:
+        rep.ob("O8.4", "R12", bl, ok, construct, what, node=node)
+    # pruning bound: the partial label is <node segment of the prefix> + <char>*k with char < the separator that follows a node segment
     pb = rep.f(NA, N + "_build_partial_label")
     pdefs = local_defs(pb.node)
-    pseg = origin(pdefs, ast.Name(id="node_segment", ctx=ast.Load()))
-    same = norm(pseg).replace("prefix", "perm") == norm(nseg)
-    suf = origin(pdefs, ast.Name(id="suffix", ctx=ast.Load()))
-    ch = None
-    if isinstance(suf, ast.BinOp) and isinstance(suf.op, ast.Mult) and isinstance(suf.left, ast.Constant) and isinstance(suf.left.value, str) and len(suf.left.value) == 1:
-        ch = suf.left.value
-    # separator that follows the prefix' node segment in every descendant label
-    sep = None
-    if isinstance(nseg, ast.Call) and isinstance(nseg.func, ast.Attribute) and isinstance(nseg.func.value, ast.Constant):
-        sep = nseg.func.value.value
+    pre = pb.params[2]
     rets = returns_of(pb.node)
-    shape = bool(rets) and norm(rets[-1].value) == "node_segment + suffix"
-    bound_ok = same and shape and ch is not None and sep is not None and len(sep) == 1 and ord(ch) < ord(sep)
+    same = shape = False
+    ch = sep = None
+    bdefs = local_defs(bl.node)
+    full_ret = returns_of(bl.node)
+    fm = pmatch("$ns + $$sep + $es", full_ret[-1].value) if full_ret else None
+    if fm:
+        sep_node = full_ret[-1].value.left.right
+        if isinstance(sep_node, ast.Constant) and isinstance(sep_node.value, str) and sep_node.value:
+            sep = sep_node.value[0]
+        nseg = origin(bdefs, ast.Name(id=fm["ns"], ctx=ast.Load()))
+    else:
+        nseg = None
+    if rets:
+        rm = pmatch("$ns + $suf", rets[-1].value)
+        if rm and nseg is not None:
+            shape = True
+            pseg = origin(pdefs, ast.Name(id=rm["ns"], ctx=ast.Load()))
+            # same construction as the full label's node segment, over the prefix instead of the whole permutation
+            pat = f"'|'.join((':'.join((str(self._freeze({pb.params[1]}.nodes[$v].get($a, ''))) for $a in self.node_attrs)) for $v in {pre}))"
+            same = pmatch(pat, pseg) is not None
+            suf = origin(pdefs, ast.Name(id=rm["suf"], ctx=ast.Load()))
+            if isinstance(suf, ast.BinOp) and isinstance(suf.op, ast.Mult) and isinstance(suf.left, ast.Constant) and isinstance(suf.left.value, str) and len(suf.left.value) == 1:
+                ch = suf.left.value
+    # a non-final node segment is followed by '|' (inside the join) — the prefix' segment is followed by '|' or by the first char of sep
+    follow = {"|"} | ({sep} if sep else set())
+    bound_ok = same and shape and ch is not None and sep is not None and all(ord(ch) < ord(f) for f in follow)
     rep.ob("O8.4", "R16", pb, bound_ok, f"node_segment(prefix) + {ch!r}*k  vs separator {sep!r}",
            "the partial label is a strict lower bound of every label below the branch (same node segment, then a character smaller than the separator that follows in any full label)",
            {"same_node_segment": same, "suffix_char": ch, "separator": sep})
     for name, ok, construct, what, node in C.ir_search_shape(se, partial_bound_ok=bool(bound_ok)):
         rep.ob("O8.4", "R16", se, ok, construct, what, node=node)
-    pl = [d for d in local_defs(se.node).get("partial_label", []) if d.kind == "assign"]
-    ok = bool(pl) and norm(pl[0].value) == "self._build_partial_label(G, candidate_prefix)" and \
-        norm(origin(local_defs(se.node), ast.Name(id="candidate_prefix", ctx=ast.Load()))) == "prefix + [v]"
-    rep.ob("O8.4", "R16", se, ok, pl[0].stmt if pl else "partial_label", "the bound is computed for the branch that is about to be entered")
+    # the bound is computed for the branch that is about to be entered: partial = self._build_partial_label(G, cand); cand = prefix + [v]; recursive call gets cand
+    sdefs = local_defs(se.node)
+    pls = pfind(f"$pl = self._build_partial_label({G_se}, $cand)", se.node)
+    ok = False
+    if len(pls) == 1:
+        cand = pls[0][1]["cand"]
+        csrc = origin(sdefs, ast.Name(id=cand, ctx=ast.Load()))
+        loops = enclosing_loops(parent_map(se.node), pls[0][0], se.node)
+        cm = pmatch(f"{se.params[3]} + [$v]", csrc)
+        rec = [c for c in walk_local(se.node) if isinstance(c, ast.Call) and norm(c.func) == "self._search"]
+        ok = bool(cm) and bool(loops) and norm(loops[0].target) == cm["v"] and len(rec) == 1 and len(rec[0].args) >= 3 and norm(rec[0].args[2]) == cand
+    rep.ob("O8.4", "R16", se, ok, pls[0][0] if pls else "partial label", "the bound is computed for the branch that is about to be entered")
     # refinement cache
     rf = rep.f(NA, N + "_refine")
     ss = local_memo_sites(rep.repo, rf)
@@ -348,20 +416,32 @@ def nauty(rep):
                    {"covered": s.covered}, node=s.store)
         for kind, node, msg in s.problems:
             rep.ob("O8.4", "R1", rf, False, f"[{kind}] {norm(node)[:50]}", msg, node=node)
-    srt = [l for l in walk_local(rf.node) if isinstance(l, ast.For) and isinstance(l.iter, ast.Call) and call_name(l.iter) == "sorted" and "sigs" in norm(l.iter)]
-    rep.ob("O8.4", "R12", rf, len(srt) == 1 and _total_key(srt[0].iter), srt[0].iter if srt else "sorted(sigs)", "split cells are ordered by their full signatures")
+    # split cells are emitted in signature order: the grouping dict is filled by $g.setdefault(sig, []).append(v) and iterated via sorted($g)
+    groups = pfind("$g.setdefault($s, []).append($v)", rf.node)
+    gnames = {b["g"] for _, b in groups}
+    srt = [l for l in walk_local(rf.node) if isinstance(l, ast.For) and isinstance(l.iter, ast.Call) and call_name(l.iter) == "sorted"
+           and l.iter.args and norm(l.iter.args[0]).split(".")[0] in gnames]
+    unsorted_iter = [l for l in walk_local(rf.node) if isinstance(l, ast.For) and norm(l.iter).split(".")[0].split("(")[0] in gnames]
+    rep.ob("O8.4", "R12", rf, len(gnames) == 1 and len(srt) == 1 and _total_key(srt[0].iter) and not unsorted_iter,
+           srt[0].iter if srt else "sorted(<signature groups>)", "split cells are ordered by their full signatures")
     uo = rep.f(NA, N + "compute_orbits.<locals>.union_orbits")
     for ok_, msg_, facts_ in check_merge(uo.node):
         rep.ob("O8.4", "R12", uo, ok_, msg_, "merging two orbit slots keeps orbit_map exact (union at the surviving slot, members of the emptied slot re-pointed)", facts_, node=uo.node)
     gs = rep.f(NA, N + "graph_signature")
     gd = local_defs(gs.node)
-    ok = norm(origin(gd, ast.Name(id="label", ctx=ast.Load()))) == "self._build_label(G_canon, sorted(G_canon.nodes()))" and \
-        norm(origin(gd, ast.Name(id="G_canon", ctx=ast.Load()))) == "self.canonical_form(G)"
-    rep.ob("O8.3", "COVER", gs, ok, "label = self._build_label(G_canon, sorted(G_canon.nodes()))", "the exact signature is the label of the canonical graph in canonical node order")
+    ok = False
+    lab = pfind("$l = self._build_label($gc, sorted($gc.nodes()))", gs.node)
+    if len(lab) == 1:
+        gsrc = origin(gd, ast.Name(id=lab[0][1]["gc"], ctx=ast.Load()))
+        ok = pmatch(f"self.canonical_form({gs.params[1]})", gsrc) is not None
+        # and the label is what gets hashed / returned
+        used = [n for n in walk_local(gs.node) if isinstance(n, ast.Name) and n.id == lab[0][1]["l"] and isinstance(n.ctx, ast.Load)]
+        ok = ok and bool(used)
+    rep.ob("O8.3", "COVER", gs, ok, lab[0][0] if lab else "label = self._build_label(G_canon, sorted(G_canon.nodes()))", "the exact signature is the label of the canonical graph in canonical node order")
     for rel in TWINS_FILES:
         cn = rep.f(rel, GC + "_canon_nauty")
         rets = returns_of(cn.node)
-        rep.ob("O8.1", "R14", cn, bool(rets) and norm(rets[-1].value) == "self.nauty.canonical_form(g)", rets[-1] if rets else "return", "the nauty back-end returns the exact canonical form")
+        rep.ob("O8.1", "R14", cn, bool(rets) and norm(rets[-1].value) == f"self.nauty.canonical_form({cn.params[1]})", rets[-1] if rets else "return", "the nauty back-end returns the exact canonical form")
 
 
 # ------------------------------------------------------------------ O8.5
